@@ -1,6 +1,6 @@
 (* Json/Sticky.v — what is re-reported by further calls of Next after an ErrorGrammar:
    the end-of-input report (io.EOF) is repeated forever with the parser unchanged; Err() never becomes nil
-   again; a parse error, however, is NOT always re-reported (witness). *)
+   again; after a parse error Next may go on returning units (witness) while Err() keeps the error. *)
 From Coq Require Import ZifyBool.
 From Verif Require Import Common.Base Common.Tactics Common.Lx Json.Model Json.Lex Json.Spec Json.Grammar
   Json.AcceptLex Json.Proofs Json.Trace Json.Accept.
@@ -109,9 +109,10 @@ Proof.
   rewrite Ea'. lia.
 Qed.
 
-(* a parse error is not always re-reported: after "expected colon" on {"a" "b":1} the next call returns
-   the String unit "b" *)
-Theorem json_parse_error_sticky_refuted_proof :
+(* Next does not look at p.err on entry: a caller that keeps calling after a parse error gets units again
+   where the text allows it, while Err() keeps the first error.  After the expected-colon error on the
+   document  { 'a' 'b' : 1 }  (with double quotes) the next call returns the String unit 'b'. *)
+Theorem json_continues_after_error_proof :
   exists d tr, trace 3 (json_init d) = Some tr /\ grammars tr = [G_StartObject; G_Error; G_String] /\
                map (fun up => err_kind (snd up)) tr = [0; 2; 2].
 Proof.
